@@ -470,6 +470,9 @@ impl Accept {
     }
 }
 
+#[cfg(actix_net_verif)]
+pub(crate) mod verif;
+
 /// This function defines errors that are per-connection; if we get this error from the `accept()`
 /// system call it means the next connection might be ready to be accepted.
 ///
